@@ -55,7 +55,7 @@ class C12(Prop):
     }
 
     def budget(self, tier):
-        return dict(examples=320, shards=16) if tier == "quick" else dict(examples=6000, shards=16)
+        return dict(examples=480, shards=16) if tier == "quick" else dict(examples=6000, shards=16)
 
     def strategy(self, tier):
         return cases(tier)
